@@ -75,6 +75,16 @@ class XTyper:
         env = {}
         for p, a in zip(params_of(fi.node)[(1 if fi.cls else 0):], args):
             env[p] = a
+        # parameters the call leaves out have their defaults (constants and module-level constant names)
+        a_ = fi.node.args
+        pos_ = [x.arg for x in a_.posonlyargs + a_.args]
+        dflt = dict(zip(pos_[len(pos_) - len(a_.defaults):], a_.defaults))
+        dflt.update({x.arg: d for x, d in zip(a_.kwonlyargs, a_.kw_defaults) if d is not None})
+        for p, d in dflt.items():
+            if p not in env and isinstance(d, (ast.Constant, ast.Name)):
+                v = self._ev(fi, d, {})
+                if v[0] in ("Key", "Const"):
+                    env[p] = v
         self.depth += 1
         try:
             ret = self.block(fi, fi.node.body, env)
@@ -233,6 +243,11 @@ class XTyper:
             return U(f"name {e.id}")
         if isinstance(e, ast.Constant):
             return ("Key", e.value) if isinstance(e.value, str) else ("Const", e.value)
+        if isinstance(e, (ast.List, ast.Tuple)) and len(e.elts) == 1 and isinstance(e.elts[0], ast.Starred):
+            # [*xs] / (*xs,): the elements of xs in their order, like list(xs)
+            as_call = ast.copy_location(ast.Call(func=ast.Name(id="list", ctx=ast.Load()), args=[e.elts[0].value], keywords=[]), e)
+            ast.fix_missing_locations(as_call)
+            return self.call_expr(fi, as_call, env)
         if isinstance(e, ast.Tuple):
             return ("Tuple", [self.ev(fi, x, env) for x in e.elts])
         if isinstance(e, ast.Starred):
@@ -517,6 +532,8 @@ class XTyper:
                     return ("Const", None)
                 if f.attr == "nodes":
                     return ("Seq", ("IG", recv[1]), ("NX", recv[1]), True, ("nodes", recv[1]))
+            if recv[0] == "Seq" and f.attr == "copy" and not e.args:
+                return recv                             # list.copy(): the same elements in the same order
             if recv[0] == "Map" and f.attr in ("items",):
                 return ("Pairs", recv[1], recv[2], recv[3], recv[4])
             if recv[0] == "Map" and f.attr == "keys":
